@@ -126,6 +126,19 @@ Fixpoint pump_doc (m : nsmap) (t : inode) (tail : option str) {struct t} : list 
       ++ [PEnd (clark_of q) (lead_text ks) tail]
   end.
 
+Fixpoint pump_kids (pd : inode -> option str -> list pevent) (ks : list inode) : list pevent :=
+  match ks with
+  | [] => []
+  | k :: r => pd k (tail_of r) ++ pump_kids pd r
+  end.
+
+(* an XML reader never reports two attributes with the same expanded name on one element *)
+Fixpoint wf_doc (t : inode) : bool :=
+  match t with
+  | IText _ => true
+  | IElem _ _ ats ks => nodup_by str_eqb (map (fun a => clark_of (fst a)) ats) && forallb wf_doc ks
+  end.
+
 (* indentation: whitespace-only text nodes inside an element that has child elements *)
 Definition is_elem (k : inode) : bool := match k with IElem _ _ _ _ => true | IText _ => false end.
 Fixpoint strip_indent (t : inode) : inode :=
